@@ -23,16 +23,15 @@ def do_unmarshal(data):
 
 
 def encode_value(v, pos='top'):
+    fn = {'top': encode.encode_table_value, 'table': encode.field_table, 'array': encode.field_array}[pos]
+    pre = abstract(v)
     try:
-        if pos == 'top':
-            b = encode.encode_table_value(v)
-        elif pos == 'table':
-            b = encode.field_table(v)
-        else:
-            b = encode.field_array(v)
+        b = fn(v)
         out = {'r': 'ok', 'b': list(b)}
     except Exception as e:  # noqa
-        return {'pos': pos, 'in': abstract(v), 'out': a_exc(e), 'dec': {'r': 'skip'}}
+        return {'pos': pos, 'in': pre, 'out': a_exc(e), 'dec': {'r': 'skip'}, 'out2': {'r': 'skip'}, 'post': abstract(v)}
+    out2 = _call(fn, v)
+    post = abstract(v)
     try:
         if pos == 'top':
             n, w = decode.embedded_value(b)
@@ -43,7 +42,7 @@ def encode_value(v, pos='top'):
         dec = {'r': 'ok', 'n': n, 'v': abstract(w)}
     except Exception as e:  # noqa
         dec = a_exc(e)
-    return {'pos': pos, 'in': abstract(v), 'out': out, 'dec': dec}
+    return {'pos': pos, 'in': pre, 'out': out, 'dec': dec, 'out2': out2, 'post': post}
 
 
 def roundtrip(f, ch):
@@ -53,7 +52,10 @@ def roundtrip(f, ch):
         b = frame.marshal(f, ch)
         out = {'r': 'ok', 'b': list(b)}
     except Exception as e:  # noqa
-        return {'in': fin, 'ch': ch, 'out': a_exc(e), 'un': {'r': 'skip'}, 're': {'r': 'skip'}}
+        return {'in': fin, 'ch': ch if isinstance(ch, int) and abs(ch) < 2 ** 31 else -99, 'out': a_exc(e),
+                'un': {'r': 'skip'}, 're': {'r': 'skip'}, 'out2': {'r': 'skip'}, 'post': a_frame(f)}
+    out2 = _call(frame.marshal, f, ch)
+    post = a_frame(f)
     un, g = do_unmarshal(b)
     re_ = {'r': 'skip'}
     if g is not None:
@@ -61,7 +63,7 @@ def roundtrip(f, ch):
             re_ = {'r': 'ok', 'b': list(frame.marshal(g, ch))}
         except Exception as e:  # noqa
             re_ = a_exc(e)
-    return {'in': fin, 'ch': ch, 'out': out, 'un': un, 're': re_}
+    return {'in': fin, 'ch': int(ch), 'out': out, 'un': un, 're': re_, 'out2': out2, 'post': post}
 
 
 def _call(fn, *a):
@@ -93,7 +95,15 @@ def marshal_part(obj):
 
 
 def encode_arg(ty, v):
-    return {'ty': ty, 'in': abstract(v), 'out': _call(encode.by_type, v, ty)}
+    out = _call(encode.by_type, v, ty)
+    dec = {'r': 'skip'}
+    if out['r'] == 'ok':
+        try:
+            n, w = decode.by_type(bytes(out['b']), {'table': 'table'}.get(ty, ty))
+            dec = {'r': 'ok', 'n': n, 'v': abstract(w)}
+        except Exception as e:  # noqa
+            dec = a_exc(e)
+    return {'ty': ty, 'in': abstract(v), 'out': out, 'dec': dec}
 
 
 # ---------------------------------------------------------------------------
@@ -312,3 +322,31 @@ def peek_read(rx):
         rx.got += 1
         progressed = True
     return ev, progressed
+
+
+# ---------------------------------------------------------------------------
+# time zone
+# ---------------------------------------------------------------------------
+def set_tz(z):
+    import os
+    import time
+    os.environ['TZ'] = z
+    time.tzset()
+    return {'z': z}
+
+
+def tz_child(zone, seed, n):
+    """events recorded by a FRESH interpreter started with TZ=zone in its environment"""
+    import json
+    import os
+    import subprocess
+    import sys
+    env = dict(os.environ)
+    env['TZ'] = zone
+    here = os.path.dirname(os.path.abspath(__file__))
+    p = subprocess.run([sys.executable, os.path.join(here, 'tzchild.py'), str(seed), str(n), zone], env=env,
+                       stdout=subprocess.PIPE, stderr=subprocess.PIPE, text=True)
+    if p.returncode != 0:
+        raise RuntimeError('tz child failed: ' + p.stderr[-2000:])
+    evs = [json.loads(l) for l in p.stdout.splitlines() if l.startswith('{')]
+    return evs
